@@ -98,7 +98,7 @@ def run(ctx):
             A2, E2 = (pp(A), pp(E)) if pp else (A, E)
             nontriv = A != E
             ctx.count(('A', tuple(A), tuple(E), repr(sorted(o.items(), key=str))), nontriv)
-            ctx.bump('A.' + impl['verdict'])
+            ctx.bump('A.' + impl['verdict'].split(' ')[0])
             ctx.bump('A.opts.%d' % sum(1 for k in ('lstrip', 'rstrip', 'ignore_substrings', 'ignore_patterns',
                                                    'remove_lines', 'max_permutation_cases', 'preprocess')
                                        if o[k]))
